@@ -1100,11 +1100,56 @@ def rule_pairing(chk, gp):
                 if isinstance(n, ast.Name):
                     counts.setdefault(n.id, []).append(None)
     env = {k: v[0] for k, v in counts.items() if len(v) == 1 and v[0] is not None}
+    def through_helpers(e):
+        """`self.h(args)` -> the expression h returns (single trailing return), parameters substituted"""
+        class T(ast.NodeTransformer):
+            def visit_Call(self, n):
+                self.generic_visit(n)
+                if isinstance(n.func, ast.Attribute) and isinstance(n.func.value, ast.Name) and n.func.value.id == "self":
+                    r = gp.prog.find_method(gp.mod, gp.cls, n.func.attr)
+                    if r is not None:
+                        h = getattr(gp.mod, "orig", gp.mod)
+                        hf = r[2]
+                        rets = [y for y in pf.walk_no_nested(hf) if isinstance(y, ast.Return)]
+                        if len(rets) == 1 and rets[0] is hf.body[-1] and rets[0].value is not None:
+                            ps = [a.arg for a in hf.args.args if a.arg not in ("self", "cls")]
+                            sub = dict(zip(ps, n.args))
+                            sub.update({k.arg: k.value for k in n.keywords if k.arg})
+                            return _inline(rets[0].value, sub, 1)
+                return n
+        import copy
+        return T().visit(copy.deepcopy(e)) if e is not None else e
+    for k_ in list(env):
+        env[k_] = through_helpers(env[k_])
     sys_loops = []
+    oneshot_names = {}
+    for st in pf.walk_no_nested(loop):
+        if isinstance(st, ast.Assign) and len(st.targets) == 1 and isinstance(st.targets[0], ast.Name):
+            v = through_helpers(st.value)
+            if isinstance(v, ast.Call) and pf.call_name(v) in ("zip", "map", "filter", "iter", "enumerate", "reversed"):
+                oneshot_names.setdefault(st.targets[0].id, v)
     for x in pf.walk_no_nested(loop):
         if x is loop or not isinstance(x, ast.For):
             continue
-        it = _strip_neutral(_inline(x.iter, env))
+        if isinstance(x.iter, ast.Name) and x.iter.id in oneshot_names:
+            # where was the iterator created, and is this loop inside another loop that does not enclose the creation?
+            creation = [st for st in pf.walk_no_nested(loop) if isinstance(st, ast.Assign) and st.lineno < x.lineno
+                        and any(isinstance(t, ast.Name) and t.id == x.iter.id for t in st.targets)]
+            creation = sorted(creation, key=lambda c_: c_.lineno)[-1:]
+            outer = pf.enclosing(x, (ast.For,))
+            while outer is not None and outer is not loop and creation:
+                if not any(c is y for c in creation for y in ast.walk(outer)):
+                    chk.violation("pairing", TR, cname + ".add_reactions", "one-shot iterator %s" % x.iter.id, x.lineno,
+                                  "`%s` is a one-shot %s iterator created once (`%s`) and consumed by `for %s in %s` inside "
+                                  "`for %s in %s`: the first pass of the outer loop exhausts it, every later pass (the "
+                                  "second kernel of the component) sums over nothing"
+                                  % (x.iter.id, pf.call_name(oneshot_names[x.iter.id]), pf.src(creation[0])[:60],
+                                     pf.src(x.target), x.iter.id, pf.src(outer.target), pf.src(outer.iter)[:40]),
+                                  instance="%s.add_reactions: iterator %s is not reused across iterations of an enclosing loop"
+                                  % (cname, x.iter.id))
+                    break
+                outer = pf.enclosing(outer, (ast.For,))
+        it = _strip_neutral(_inline(through_helpers(x.iter), env))
         names = {n.id for n in ast.walk(it) if isinstance(n, ast.Name)}
         subs = {n.slice.value for n in ast.walk(it) if isinstance(n, ast.Subscript) and isinstance(n.value, ast.Name)
                 and n.value.id in rvars and isinstance(n.slice, ast.Constant)}
@@ -2071,6 +2116,118 @@ def rule_instance_state(chk, prog):
 
 
 # ----------------------------------------------------------------------------
+# log-determinants are sums of logs, never the log of a product
+# ----------------------------------------------------------------------------
+def rule_log_prod(chk, gp):
+    n = 0
+    for c, mname, fn in _train_methods(gp):
+        for x in ast.walk(fn):
+            if isinstance(x, ast.Call) and (pf.call_name(x) or "").split(".")[-1] in ("log", "log2", "log10", "log1p") and x.args:
+                n += 1
+                inner = [y for y in ast.walk(x.args[0]) if isinstance(y, ast.Call)
+                         and (pf.call_name(y) or "").split(".")[-1] in ("prod", "product", "cumprod")]
+                if isinstance(x.args[0], ast.Name):
+                    for st in pf.walk_no_nested(fn):
+                        if isinstance(st, ast.Assign) and any(isinstance(t, ast.Name) and t.id == x.args[0].id for t in st.targets):
+                            inner += [y for y in ast.walk(st.value) if isinstance(y, ast.Call)
+                                      and (pf.call_name(y) or "").split(".")[-1] in ("prod", "product", "cumprod")]
+                where = "%s.%s" % (c.name, mname)
+                inst = "%s: `%s` is not the logarithm of a product over a vector" % (where, pf.src(x)[:50])
+                if inner:
+                    chk.violation("log-prod", TR, where, "log of a product", x.lineno,
+                                  "`%s` multiplies all entries before taking the logarithm: for a few hundred factors the "
+                                  "product under- or overflows (0 or inf) and the log marginal likelihood becomes +-inf; "
+                                  "use the sum of the logs (or slogdet)" % pf.src(x)[:70], instance=inst)
+                else:
+                    chk.ok("log-prod", inst, nontrivial=False)
+    chk.ok("log-prod", "%s: %d logarithms examined" % (gp.cls.name, n), nontrivial=False)
+
+
+# ----------------------------------------------------------------------------
+# a matrix served from a cache attribute was stored from the kernel evaluation itself
+# ----------------------------------------------------------------------------
+PASS_CALLS = {"np.ix_", "np.asfortranarray", "np.ascontiguousarray", "np.asarray", "np.array", "np.copy"}
+
+
+def _data_calls(fn, e, defs, seen=None, depth=6):
+    """calls the DATA of e passes through (indices of subscripts are not data), following local definitions"""
+    seen = seen if seen is not None else set()
+    out = []
+    if isinstance(e, ast.Subscript):
+        return _data_calls(fn, e.value, defs, seen, depth)
+    if isinstance(e, ast.Name):
+        if e.id in seen or depth <= 0:
+            return out
+        seen.add(e.id)
+        for v in defs.get(e.id, []):
+            out += _data_calls(fn, v, defs, seen, depth - 1)
+        return out
+    if isinstance(e, ast.BinOp):
+        return _data_calls(fn, e.left, defs, seen, depth) + _data_calls(fn, e.right, defs, seen, depth)
+    if isinstance(e, ast.Call):
+        f = e.func
+        if pf.is_self_attr(f, "kernel") or (isinstance(f, ast.Attribute) and pf.is_self_attr(f.value, "kernel")):
+            return [("kernel", e)]
+        nm = pf.call_name(e) or pf.src(f)
+        if nm in PASS_CALLS or (isinstance(f, ast.Attribute) and f.attr in ("copy", "T")):
+            inner = e.args[0] if e.args else (f.value if isinstance(f, ast.Attribute) else None)
+            return _data_calls(fn, inner, defs, seen, depth) if inner is not None else []
+        return [(nm, e)]
+    if isinstance(e, ast.Attribute) and e.attr == "T":
+        return _data_calls(fn, e.value, defs, seen, depth)
+    return out
+
+
+def rule_cache_source(chk, prog):
+    mod = prog.module(DK)
+    n = 0
+    for cname in ("DFTKernel", "DFTKernel2"):
+        cls = mod.cls(cname)
+        ms = {}
+        for m, c in prog.mro(mod, cls):
+            for k, f in pf.methods(c).items():
+                ms.setdefault(k, (c, f))
+        served = {}
+        for mname, (c, fn) in ms.items():
+            for st in pf.walk_no_nested(fn):
+                if isinstance(st, ast.Assign) and len(st.targets) == 1 and pf.is_self_attr(st.targets[0]) \
+                        and pf.is_self_attr(st.value) and st.value.attr != st.targets[0].attr:
+                    served[st.value.attr] = (mname, st)
+        for attr, (mname, alias_st) in sorted(served.items()):
+            for wname, (c, fn) in ms.items():
+                if wname == "__init__":
+                    continue
+                defs = {}
+                for x in pf.walk_no_nested(fn):
+                    if isinstance(x, ast.Assign):
+                        for t in x.targets:
+                            if isinstance(t, ast.Name):
+                                defs.setdefault(t.id, []).append(x.value)
+                for st in pf.walk_no_nested(fn):
+                    if isinstance(st, ast.Assign) and any(pf.is_self_attr(t, attr) for t in st.targets) \
+                            and not isinstance(st.value, ast.Constant):
+                        n += 1
+                        calls = _data_calls(fn, st.value, defs)
+                        other = [(nm, e) for nm, e in calls if nm != "kernel"]
+                        inst = "%s: self.%s, served as self.%s by %s, is stored from the kernel evaluation itself" % (
+                            cname, attr, pf.src(alias_st.targets[0]).split(".")[-1], mname)
+                        if other or not calls:
+                            chk.violation("cache-source", DK, "%s.%s" % (c.name, wname), "self.%s = %s" % (attr, pf.src(st.value)[:50]),
+                                          st.lineno,
+                                          "%s hands out self.%s as `%s`, but %s stores it from `%s`, whose data went through "
+                                          "%s after the kernel was evaluated: the served matrix is a transformed one "
+                                          "(e.g. normalised to unit diagonal), not kernel(X1ctrl, X1ctrl), so K_mm and "
+                                          "K_mn no longer belong to the same kernel"
+                                          % (mname, attr, pf.src(alias_st)[:50], wname, pf.src(st.value)[:50],
+                                             ", ".join(sorted({nm for nm, e in other})) or "no kernel evaluation at all"),
+                                          instance=inst)
+                        else:
+                            chk.ok("cache-source", inst)
+    chk.ok("cache-source", "DFTKernel/DFTKernel2: %d store(s) into attributes that another method serves under a second name" % n,
+           nontrivial=False)
+
+
+# ----------------------------------------------------------------------------
 def _analyse_own(chk):
     # statement-level helper calls are inlined one level so that the rules see one body per anchored method
     prog = inline.inlined_program(chk.tree, [TR, DK, XE, XE2])
@@ -2083,6 +2240,7 @@ def _analyse_own(chk):
     chk.rule("loop-carried", "locals feeding the stored rows are (re)defined in every iteration of the reaction loop")
     chk.rule("option-writeback", "an option key of a caller-owned dict is only given plain defaults, never a derived value")
     chk.rule("stale-loop-value", "a value set in every iteration of a loop (without break) is not used after that loop")
+    chk.rule("log-prod", "the likelihood never takes the logarithm of a product of many factors")
     chk.rule("likelihood-default", "compute_likelihood(x=None) evaluates the likelihood on the matrix fit() factorised")
     chk.rule("per-item-memo", "a decision that depends on the current item is not memoised across loop iterations")
     chk.rule("twin-covs", "MOLGP/MOLGP2._compute_mol_covs agree on mask axes, (spin, array) entries, spin channel and weights")
@@ -2111,6 +2269,7 @@ def _analyse_own(chk):
         chk.guard(rule_stored_alias, gp)
         chk.guard(rule_option_writeback, gp)
         chk.guard(rule_likelihood_default, gp)
+        chk.guard(rule_log_prod, gp)
         chk.guard(rule_per_item_memo, gp)
         chk.guard(rule_stale_loop_value, gp)
     chk.guard(rule_memo, prog)
@@ -2120,6 +2279,8 @@ def _analyse_own(chk):
     chk.guard(rule_twin_covs, prog)
     chk.rule("instance-state", "attributes that are modified in place are created per instance, not shared class-level defaults")
     chk.guard(rule_instance_state, prog)
+    chk.rule("cache-source", "a kernel matrix served from a cache attribute was stored from the kernel evaluation, untransformed")
+    chk.guard(rule_cache_source, prog)
     chk.floor("instance-state", 5, "cov/base/dcov/dbase dicts and rxn_cov_list of the kernels, rxn lists and dicts of MOLGP")
     # the kernel objects start with an empty list too
     dk = prog.module(DK)
@@ -2251,6 +2412,17 @@ def _seed_class_defaults(text):
                         "class DFTKernel(KernelEvalBase):\n    base_dict = {}\n    cov_dict = {}\n    dbase_dict = {}\n    dcov_dict = {}\n\n", 1)
 
 
+
+def _seed_kmm_sel(text):
+    a = "        idx = sortidx[piv[:r_c]]\n"
+    b = '        if self.mode == "POL":\n            kaa = self.kernel(self.X1ctrl[0], self.X1ctrl[0])'
+    if a not in text or b not in text:
+        return None
+    text = text.replace(a, a + "        self._Kmm_sel = Snorm[np.ix_(idx, idx)]\n", 1)
+    return text.replace(b, "        if getattr(self, '_Kmm_sel', None) is not None:\n            self.Kmm = self._Kmm_sel\n"
+                           "            return self.Kmm\n" + b, 1)
+
+
 def mutants(tree):
     return [
         Mutant("forget rxn_noise_list in reset", TR, "        self.rxn_noise_list = []\n", "", expect="reset-append"),
@@ -2320,8 +2492,8 @@ def mutants(tree):
                "            Kfull = self.K_\n        else:\n", "            x = np.array([1.0, 1.0])\n        if True:\n", expect="likelihood-default"),
         Mutant("orbital-derivative decision frozen by the first system (MOLGP)", TR, fn=_revert_deriv(0), expect="per-item-memo"),
         Mutant("orbital-derivative decision frozen by the first system (MOLGP2)", TR, fn=_revert_deriv(1), expect="per-item-memo"),
-        Mutant("MOLGP2 masks the feature axis", TR, "                            dkdX0T[:, s][:, :, cond[s]] = 0.0\n                            dm[s][:, cond[s]] = 0.0",
-               "                            dkdX0T[:, s, cond[s], :] = 0.0\n                            dm[s][:, cond[s]] = 0.0", expect="twin-covs"),
+        Mutant("MOLGP2 masks the feature axis", TR, "                            dkdX0T[:, s][:, :, cond[s]] = 0.0\n",
+               "                            dkdX0T[:, s, cond[s], :] = 0.0\n", count=2, expect="twin-covs"),
         Mutant("MOLGP2 slices the (spin, array) entry", TR, "drho_tmp = wt * drho_data[orb][1][:, i0:i1]", "drho_tmp = wt * drho_data[orb][:, i0:i1]",
                expect="twin-covs"),
         Mutant("MOLGP2 baseline term over all spins, weights twice", TR, "dbaseline[orb] += (da[s] * drho_tmp).sum()",
@@ -2333,6 +2505,13 @@ def mutants(tree):
                expect="fit-system"),
         Mutant("all stoichiometry loops through one dict", TR, fn=_seed_all_dict, expect="pairing"),
         Mutant("per-kernel dicts hoisted to class-level defaults", DK, fn=_seed_class_defaults, expect="instance-state"),
+        Mutant("log-determinant as the log of a product", TR, "likelihood -= 0.5 * np.linalg.slogdet(Kfull)[1]",
+               "likelihood -= np.log(np.prod(np.diag(Lfull)))", expect="log-prod"),
+        Mutant("one zip iterator shared by the kernels of a component", TR,
+               "            for kernel in self.xkernels:\n                rxn_cov = 0\n                for sysid, count in zip(rxn[\"structs\"], rxn[\"counts\"]):",
+               "            terms = zip(rxn[\"structs\"], rxn[\"counts\"])\n            for kernel in self.xkernels:\n                rxn_cov = 0\n                for sysid, count in terms:",
+               expect="pairing"),
+        Mutant("Kmm served from the normalised selection matrix", DK, fn=_seed_kmm_sel, expect="cache-source"),
         Mutant("noise block snapshot before the rescaling", TR, fn=_seed_snapshot, expect="fit-snapshot"),
         Mutant("noise not squared", TR, "        noise_nn = noise_nn**2  # get noise covariance from noise std deviation\n", "",
                expect="fit-system"),
